@@ -2510,7 +2510,10 @@ class Transport(threading.Thread, ClosingContextManager):
         )
 
     def _parse_kex_init(self, m):
-        parsed = self._really_parse_kex_init(m)
+        try:
+            parsed = self._really_parse_kex_init(m)
+        except UnicodeDecodeError as e:
+            raise SSHException("Invalid KEXINIT name-list: {}".format(e))
         kex_algo_list = parsed["kex_algo_list"]
         server_key_algo_list = parsed["server_key_algo_list"]
         client_encrypt_algo_list = parsed["client_encrypt_algo_list"]
